@@ -96,6 +96,20 @@ def gen_history(rng):
             # repeats a call does (repeatability with shared lists / dicts)
             hist.append(copy.deepcopy(probe))
             continue
+        if rng.random() < 0.12:
+            # the same session in the fast simulator on a LARGER trading timeframe first: whatever the fast simulator
+            # derives from the routes (its chunk size) must be derived again for the probed call
+            probe['fast'] = True
+            c = gen_call(rng, probe, 'fee')
+            c['fast'] = True
+            c['tf'] = {'1m': '5m', '3m': '15m', '5m': '15m', '15m': '15m'}[probe['tf']]
+            if probe['tf'] == '15m':
+                probe['tf'] = '3m'
+            c.pop('warmup_rows', None)
+            probe.pop('warmup_rows', None)
+            c['warmup'] = probe['warmup'] = 0
+            hist.append(c)
+            continue
         if rng.random() < 0.75:
             c = gen_call(rng, probe, rng.choice(AXES))
         else:
